@@ -231,7 +231,10 @@ CLAIMED = {
              "explicit bound test whose failure is the outcome PPanic. Theorems: C16_components_reader_never_panics and "
              "C16_factors_reader_never_panics (for EVERY text the outcome is a result, a typed error or a non-finite value, "
              "never PPanic), C16_line_readers_never_panic, C16_meta_reader_guarded (the byte-5 slice is safe exactly under "
-             "the callers' prefix test; C16_meta_reader_unguarded shows the test is needed). The tie to the code: model "
+             "the callers' prefix test; C16_meta_reader_unguarded shows the test is needed), "
+             "C16_accepted_components_have_one_length and C16_normalisation_keeps_the_length (every component set the reader "
+             "returns — completed and re-assigned components included — has one number of steps: the precondition of the "
+             "length assertions of src/vecops.rs). The tie to the code: model "
              "outcome (exact value, error kind) against FromStr of each record type on valid, corrupted and token-soup "
              "lines, and against the file readers on valid / corrupted / soup files; the panic sites of src/ are enumerated "
              "on every run and compared with the reviewed list panic_sites.json. PARTIAL: the stages after reading "
@@ -275,7 +278,9 @@ CLAIMED = {
              "statement is false with renewable-fuelled cogeneration (known finding). The tie to the code: model/implementation correspondence on "
              "the generated bases, and the property itself evaluated on implementation outputs of (building, building + "
              "extra EL_INSITU line) pairs: four regulatory locations, k_exp in [0,1], with and without load matching. "
-             "PARTIAL: the load matching mode is decided by the differential run only.",
+             "Load matching: C14_load_matching_used_production (g(u,p) = f(p/u) min(u,p) is non-decreasing and 1-Lipschitz "
+             "in p) and C14_load_matching_without_cogeneration (the carrier statements with load matching when electricity "
+             "has no cogeneration). PARTIAL: load matching together with cogeneration is decided by the differential run only.",
         design_ref="DESIGN.md §6 C14",
         note="Trusted: Coq kernel + vm_compute; closed form of the weighted energy (RerFacts.carrier_closed) under 'regular' factor sets; model tied by differential testing.",
         technique="Coq proof (per-step case analysis, annual sums, closed form of weighted energy) + refutation witness + correspondence + metamorphic oracle"),
